@@ -1749,6 +1749,12 @@ class SFSDistribution(PhaseTypeDistribution, ABC):
 
         p = alpha @ Q @ p_total
 
+        if np.isnan(p):
+            raise ValueError(
+                "NaN value encountered when computing mutation configuration probability. "
+                "This is likely due to an ill-conditioned rate matrix."
+            )
+
         return p
 
     def get_mutation_configs(self, theta: float) -> Iterator[Tuple[Tuple[float, ...], float]]:
